@@ -122,8 +122,8 @@ def _second_definition():
     Checkpoints of the present study must be rebuilt with the present definition. Returns the function that undoes the rebinding."""
     from .. import build as B
     first = B.LoggingBattery
-    b0 = first(10.0, 1.0, 5.0)
-    first.from_json(b0.to_json())
+    ev0 = sut.EV(0, 5, 1.0, "X", "earlier-study", first(10.0, 1.0, 5.0))       # (inside an EV: nested objects are located by their recorded class path)
+    sut.EV.from_json(ev0.to_json())
 
     class LoggingBattery(sut.Battery):
         def charge(self, pilot, voltage, period):
